@@ -62,6 +62,7 @@ Types1G == { GenHolder(TRUE), GenHolder(FALSE), GBox(<<"datetime">>), GBox(<<"un
 Types == IF Depth = 0 THEN Leaves ELSE IF Depth = 1 THEN Types1 \cup Types1N \cup Types1S \cup Types1U \cup Types1I \cup Types1G ELSE Types2
 FalsyLeaves == { <<"int">>, <<"float">>, <<"bool">>, <<"str">>, <<"bytes">>, <<"timedelta">>, <<"text", "decimal">>, <<"text", "fraction">> }
 AllTypes == Types \cup { Holder(t) : t \in Types } \cup { PlainHolder(t) : t \in Types }
+            \cup (IF Depth = 1 THEN { Chain3(Holder(t)) : t \in Leaves \ { <<"none">> } } \cup { Chain3(PlainHolder(t)) : t \in RepLeaves } ELSE {})
             \cup { FalsyHolder(t, FirstOf(Smp(t))) : t \in Types \cap FalsyLeaves }
 
 Cx == DefaultCx
